@@ -166,12 +166,12 @@ func propDefs() map[string]*PropDef {
 		ID: "C17",
 		Funcs: append(append(append([]FuncCheck{{Fn: "(*CollationOrderKey[K]).Transform", Layer: "C"}},
 			treeFuncs([]string{"Search", "Size", "Delete", "Insert"},
-				map[string][]string{"Search": {`/pure`}, "Size": {`/pure`}, "Delete": {`/noop_frame`, `/empty_is_initial`}, "Insert": {`/overwrite_only_value`}}, nil)...),
-			append(seqFuncs([]string{`/pure`}), wrapperFuncs(allWrappers, []string{`/pure`})...)...),
+				map[string][]string{"Search": {`/pure`, `/scratch_bounded`}, "Size": {`/pure`}, "Delete": {`/noop_frame`, `/empty_is_initial`, `/scratch_bounded`}, "Insert": {`/overwrite_only_value`, `/scratch_bounded`}}, nil)...),
+			append(seqFuncs([]string{`/pure`}), wrapperFuncs(allWrappers, []string{`/pure`, `/scratch_bounded`})...)...),
 			nodeFuncs([]string{`/put@`, `/zero`, `/replaced`})...),
 		Floor: 400,
 		Assumptions: []string{
-			"proof of PREMISES only: no heap is measured. 'Retained memory depends on the content, not the history' is decomposed into reachability premises that are contract clauses: (1) queries retain nothing: Search, Size, Minimum, Maximum, the sequence constructors and the traversal closures leave every pre-existing heap object unchanged (frame()), so nothing they allocate becomes reachable from the tree; (2) an overwrite changes nothing but the value field of one leaf (overwrite_only_value) and a failed Delete changes nothing (noop_frame); (3) the collation codec's scratch buffer holds exactly the last key's sort key after every Transform (scratch_bounded: the body is verified against a model of collate.Buffer in which Key appends and only Reset empties - defect F10, fixed, is the missing Reset) and both byte slices it returns are ordinary objects allocated by the call, never storage of the buffer (owned); (4) deleting the only key resets the root to the zero reference (empty_is_initial); (5) every inner node released to the pool is unlinked first and all-zero (put_unlinked, put_zero, replaced => zeroed): a pooled node retains no child",
+			"proof of PREMISES only: no heap is measured. 'Retained memory depends on the content, not the history' is decomposed into reachability premises that are contract clauses: (1) queries retain nothing: Search, Size, Minimum, Maximum, the sequence constructors and the traversal closures leave every pre-existing heap object unchanged (frame()), so nothing they allocate becomes reachable from the tree; (2) an overwrite changes nothing but the value field of one leaf (overwrite_only_value) and a failed Delete changes nothing (noop_frame); (3) the collation codec's scratch buffer holds exactly the last key's sort key after every Transform (scratch_bounded: the body is verified against a model of collate.Buffer in which Key appends and only Reset empties - defect F10, fixed, is the missing Reset) and both byte slices it returns are ordinary objects allocated by the call, never storage of the buffer (owned); every collation-tree operation that transforms a key (Search, Insert, Delete, Prefix, Range) re-establishes the bound on the buffer from ANY earlier content (scratch_bounded at tree level: an operation that appends to the buffer without resetting it fails it), and the bounds kept by the Range closure are owned copies (captures clause of rangeScan$1@collation); (4) deleting the only key resets the root to the zero reference (empty_is_initial); (5) every inner node released to the pool is unlinked first and all-zero (put_unlinked, put_zero, replaced => zeroed): a pooled node retains no child",
 			"NOT decided: that a removed leaf has no other referrer (unique-parent ownership, rung 2); the pool's own retention policy (sync.Pool, runtime); allocator behaviour; constants",
 			"model of x/text/collate (trusted): Buffer.Reset sets the held length to 0; Collator.Key(buf, s) appends a key of unconstrained length and content and returns the appended region, storage of the buffer (allocation class 1001). The codec's buffer length is ghost state outside frame()",
 		},
